@@ -135,6 +135,13 @@ theorem dial_error_names_last_address (addrs : List Bytes) (hasSem : Bool) (idx 
 theorem connect_context_uses_absolute_deadline :
     Gen.tryDialCtx = ("WithDeadline", "deadline") ∧ Gen.tryDialDeadlineIsParam = true := by decide
 
+/-- ONE deadline per Dial call: `dial` calls time.Now() exactly once, assigns `deadline` exactly once and before the
+    name lookup, and hands that same `deadline` to getTCPAddrs and to every tryDial (fact regenerated from tcpdialer.go on
+    every run).  So the time spent in the Resolver, in the wait for a slot and in earlier address attempts all counts
+    against the caller's timeout: `TimedEnv.deadline` below is that value. -/
+theorem single_deadline_computed_on_entry :
+    Gen.dialDeadlineShape = (1, true, "deadline", ["deadline", "deadline"]) := by decide
+
 /-- If timers and context cancellation are at most `slack` late (`Prompt`), `tryDial` returns no later than its
     deadline plus twice that slack (immediately when the deadline had already passed on entry). -/
 theorem returns_within_timeout_plus_slack (hasSem : Bool) (e : TryEnv) (x : TimedEnv) (slack : Nat)
